@@ -11,7 +11,13 @@ package main
 //   * pkcs7.SignatureBuilder.Sign, xmldsig.Sign, xmldsig.SignEnveloping: guard conditions, the order of guard and
 //     private-key operation, the certificate index the SignerInfo names;
 //   * per signing site: where the private key and the embedded certificates are taken from (argument classes);
-//   * config.GetKey / tokencache.GetKey conditions used by the key-lookup model.
+//   * config.GetKey / tokencache.GetKey conditions used by the key-lookup model;
+//   * history inside a long-lived process (C07/History.v): inventory of package-level variables of internal/signinit,
+//     lib/certloader, signers (+ the signer packages without a second guard), token/tokencache, token/filetoken; field
+//     lists of the long-lived objects (tokencache.Cache, cachedKey, fileToken, fileKey, certloader.Certificate); data-flow tables: on every path of InitKey / Init the returned bundle is the one
+//     LoadTokenCertificates / InitKey produced in THIS invocation, and in serveSign / signCmd the bundle given to
+//     mod.Sign is the one signinit.Init returned in this request; the certificate-type conditions of Init and the
+//     CertTypes of every signer.
 
 import (
 	"fmt"
@@ -465,12 +471,14 @@ func init() {
 		o.hasStmt(tc, "Cache", "GetKey", "key, err := c.Token.GetKey(ctx, keyName)", "tc_fetch_by_name")
 		// signinit.InitKey: which configuration the certificates are read from
 		c07SiteInit(o)
+		c07History(o)
 		for _, fn := range [][3]string{{"lib/x509tools", "", "SameKey"}, {cl, "", "LoadTokenCertificates"}, {cl, "", "LoadX509KeyPair"},
 			{cl, "", "parseCertificates"}, {cl, "", "parseCertificatesDer"}, {cl, "Certificate", "Chain"}, {cl, "", "ParsePKCS12"},
 			{p7, "SignatureBuilder", "Sign"}, {xd, "", "Sign"}, {xd, "", "SignEnveloping"}, {xd, "", "finishSignature"},
 			{"internal/signinit", "", "InitKey"}, {"internal/signinit", "", "Init"}, {"token/filetoken", "fileToken", "GetKey"},
 			{"signers/apk", "Digest", "Sign"}, {"lib/fruit/xar", "", "appendSignatures"}, {"signers/cosign", "", "sign"},
-			{"signers/cosign", "", "attachCertificates"}, {tc, "Cache", "GetKey"}} {
+			{"signers/cosign", "", "attachCertificates"}, {tc, "Cache", "GetKey"},
+			{"server", "Server", "serveSign"}, {"cmdline/token", "", "signCmd"}, {tc, "", "New"}} {
 			fingerprint(fn[0], fn[1], fn[2])
 		}
 	}
@@ -506,4 +514,590 @@ func c07SiteInit(o *out) {
 	o.hasStmt(d, "", "InitKey", "key, err := tok.GetKey(ctx, keyName)", "initkey_key_by_name")
 	o.hasStmt("token/filetoken", "fileToken", "GetKey", "keyConf, err := tok.config.GetKey(keyName)", "filetoken_conf_by_name")
 	o.hasStmt("token/filetoken", "fileToken", "GetKey", "blob, err := ioutil.ReadFile(keyConf.KeyFile)", "filetoken_reads_conf_keyfile")
+}
+
+// ============================================================================ history inside a long-lived process
+
+// kindOfType classifies the declared type / initialiser of a package-level variable or struct field:
+//
+//	1 sync primitive  2 map  3 slice/array  4 pointer  5 scalar (string, bool, numbers, time.Duration)
+//	6 error value  7 metric / flag-set / reflect.Type handle  8 function  9 anything else (named struct or interface type)
+func c07KindOfType(fset *token.FileSet, t ast.Expr) int {
+	switch x := t.(type) {
+	case *ast.MapType:
+		return 2
+	case *ast.ArrayType:
+		return 3
+	case *ast.StarExpr:
+		return 4
+	case *ast.FuncType:
+		return 8
+	case *ast.Ident:
+		switch x.Name {
+		case "string", "bool", "int", "uint", "int8", "int16", "int32", "int64", "uint8", "uint16", "uint32", "uint64", "byte", "rune", "float64", "uintptr":
+			return 5
+		case "error":
+			return 6
+		}
+		return 9
+	case *ast.SelectorExpr:
+		s := printNode(fset, x)
+		switch {
+		case strings.HasPrefix(s, "sync."), strings.HasPrefix(s, "atomic."):
+			return 1
+		case s == "time.Duration":
+			return 5
+		case s == "asn1.ObjectIdentifier":
+			return 3
+		}
+		return 9
+	}
+	return 9
+}
+
+func c07KindOfValue(fset *token.FileSet, v ast.Expr) int {
+	switch x := v.(type) {
+	case *ast.CompositeLit:
+		if x.Type != nil {
+			return c07KindOfType(fset, x.Type)
+		}
+	case *ast.UnaryExpr:
+		if x.Op == token.AND {
+			return 4
+		}
+	case *ast.BasicLit:
+		return 5
+	case *ast.FuncLit:
+		return 8
+	case *ast.CallExpr:
+		fn := printNode(fset, x.Fun)
+		switch {
+		case fn == "make" && len(x.Args) > 0:
+			return c07KindOfType(fset, x.Args[0])
+		case fn == "errors.New" || fn == "fmt.Errorf":
+			return 6
+		case strings.HasPrefix(fn, "promauto.") || strings.HasPrefix(fn, "prometheus.") || strings.HasPrefix(fn, "reflect.") || strings.HasPrefix(fn, "pflag."):
+			return 7
+		case fn == "new":
+			return 4
+		}
+		if at, ok := x.Fun.(*ast.ArrayType); ok { // conversion []byte("...")
+			return c07KindOfType(fset, at)
+		}
+	}
+	return 9
+}
+
+func sortedFileNames(p *pkgInfo) []string {
+	var ns []string
+	for n := range p.files {
+		ns = append(ns, n)
+	}
+	// insertion sort: the package list is tiny and this file must not need another import
+	for i := 1; i < len(ns); i++ {
+		for j := i; j > 0 && ns[j] < ns[j-1]; j-- {
+			ns[j], ns[j-1] = ns[j-1], ns[j]
+		}
+	}
+	return ns
+}
+
+// c07PkgState: every package-level variable of the listed packages (files in name order, declarations in source order):
+// (package path, name, kind).  Constants are not state and are not listed.
+func c07PkgState(o *out, dirs []string, coqName string) {
+	var items []string
+	for _, d := range dirs {
+		p := loadPkg(d)
+		if len(p.files) == 0 {
+			o.brokenDef(coqName, "package "+d+" has no files")
+			return
+		}
+		for _, fn := range sortedFileNames(p) {
+			for _, decl := range p.files[fn].Decls {
+				gd, ok := decl.(*ast.GenDecl)
+				if !ok || gd.Tok != token.VAR {
+					continue
+				}
+				for _, sp := range gd.Specs {
+					vs := sp.(*ast.ValueSpec)
+					for i, n := range vs.Names {
+						if n.Name == "_" {
+							continue
+						}
+						kind := 9
+						if vs.Type != nil {
+							kind = c07KindOfType(p.fset, vs.Type)
+						} else if len(vs.Values) > i {
+							kind = c07KindOfValue(p.fset, vs.Values[i])
+						}
+						items = append(items, fmt.Sprintf("  (%s, %s, %d) (* %s.%s *)", bytesLit([]byte(d)), bytesLit([]byte(n.Name)), kind, d, n.Name))
+					}
+				}
+			}
+		}
+	}
+	o.f("(* kinds: 1 sync primitive  2 map  3 slice/array  4 pointer  5 scalar  6 error value  7 metric/flag-set/reflect handle  8 function  9 other *)\n")
+	o.f("Definition %s : list (bytes * bytes * Z) := [\n%s\n].\n", coqName, joinCoqItems(items))
+}
+
+// joinCoqItems joins "  term (* comment *)" items with ";" placed before the comment
+func joinCoqItems(items []string) string {
+	for i, it := range items {
+		if i == len(items)-1 {
+			break
+		}
+		if k := strings.Index(it, " (* "); k >= 0 {
+			items[i] = it[:k] + ";" + it[k:]
+		} else {
+			items[i] = it + ";"
+		}
+	}
+	return strings.Join(items, "\n")
+}
+
+// c07Fields: the fields of a struct type, in order: (name, kind).  Embedded fields are listed under the type's name.
+func c07Fields(o *out, dir, goName, coqName string) {
+	p, st := findStruct(dir, goName)
+	if st == nil {
+		o.brokenDef(coqName, "struct "+dir+"."+goName+" not found")
+		return
+	}
+	var items []string
+	for _, f := range st.Fields.List {
+		kind := c07KindOfType(p.fset, f.Type)
+		names := []string{}
+		for _, n := range f.Names {
+			names = append(names, n.Name)
+		}
+		if len(names) == 0 {
+			t := printNode(p.fset, f.Type)
+			t = strings.TrimPrefix(t, "*")
+			if k := strings.LastIndex(t, "."); k >= 0 {
+				t = t[k+1:]
+			}
+			names = []string{t}
+		}
+		for _, n := range names {
+			items = append(items, fmt.Sprintf("  (%s, %d) (* %s %s *)", bytesLit([]byte(n)), kind, n, strings.ReplaceAll(printNode(p.fset, f.Type), "*", "^")))
+		}
+	}
+	o.f("Definition %s : list (bytes * Z) := [\n%s\n]. (* fields of %s.%s *)\n", coqName, joinCoqItems(items), dir, goName)
+}
+
+// ---- data flow of one variable through a function body
+//
+// c07Flow follows variable `v` through the (structured) body of a function.  `bound` is true at a program point iff on
+// EVERY path reaching it the last assignment to v was `v, ... := source(...)` (a call whose printed callee is `source`)
+// executed in this invocation; assignments to fields of v do not change it but are listed.  Sinks are either the
+// return statements of the function (sinkCallee == "": class 0 first result is nil, 1 it is v, 2 anything else) or the
+// calls to sinkCallee (class 1 when argument sinkArg is v, 2 otherwise).  Emits <coq> : list (Z * bool), one entry per
+// sink in source order, and <coq>_fields : list bytes, the assigned fields.
+type c07flow struct {
+	p          *pkgInfo
+	v, source  string
+	sinkCallee string
+	sinkArg    int
+	sinks      []string
+	sinkTxt    []string
+	fields     []string
+}
+
+func (fl *c07flow) isV(e ast.Expr) bool {
+	id, ok := e.(*ast.Ident)
+	return ok && id.Name == fl.v
+}
+
+func (fl *c07flow) rootIsV(e ast.Expr) (string, bool) {
+	se, ok := e.(*ast.SelectorExpr)
+	if !ok {
+		return "", false
+	}
+	if fl.isV(se.X) {
+		return se.Sel.Name, true
+	}
+	if _, ok := fl.rootIsV(se.X); ok {
+		return printNode(fl.p.fset, se), true
+	}
+	return "", false
+}
+
+// scanSinks records call sinks inside an expression or simple statement
+func (fl *c07flow) scanSinks(n ast.Node, bound bool) {
+	if fl.sinkCallee == "" || n == nil {
+		return
+	}
+	ast.Inspect(n, func(x ast.Node) bool {
+		if _, ok := x.(*ast.FuncLit); ok {
+			return false
+		}
+		ce, ok := x.(*ast.CallExpr)
+		if !ok || printNode(fl.p.fset, ce.Fun) != fl.sinkCallee {
+			return true
+		}
+		cls := 2
+		if fl.sinkArg < len(ce.Args) && fl.isV(ce.Args[fl.sinkArg]) {
+			cls = 1
+		}
+		fl.sinks = append(fl.sinks, fmt.Sprintf("(%d, %v)", cls, bound))
+		fl.sinkTxt = append(fl.sinkTxt, strings.Join(strings.Fields(printNode(fl.p.fset, ce)), " "))
+		return true
+	})
+}
+
+// assign handles one assignment-like statement; returns the new state
+func (fl *c07flow) assign(lhs, rhs []ast.Expr, bound bool) bool {
+	for _, l := range lhs {
+		if fl.isV(l) {
+			bound = false
+			if len(rhs) == 1 {
+				if ce, ok := rhs[0].(*ast.CallExpr); ok && printNode(fl.p.fset, ce.Fun) == fl.source {
+					bound = true
+				}
+			}
+		} else if f, ok := fl.rootIsV(l); ok {
+			fl.fields = append(fl.fields, f)
+		} else if ie, ok := l.(*ast.IndexExpr); ok {
+			if f, ok := fl.rootIsV(ie.X); ok {
+				fl.fields = append(fl.fields, f+"[]")
+			}
+		}
+	}
+	return bound
+}
+
+// anyAssign: conservative treatment of statements that are not followed structurally (closures, go, defer, select)
+func (fl *c07flow) anyAssign(n ast.Node, bound bool) bool {
+	ast.Inspect(n, func(x ast.Node) bool {
+		switch a := x.(type) {
+		case *ast.AssignStmt:
+			for _, l := range a.Lhs {
+				if fl.isV(l) {
+					bound = false
+				} else if f, ok := fl.rootIsV(l); ok {
+					fl.fields = append(fl.fields, f)
+				}
+			}
+		case *ast.UnaryExpr:
+			if a.Op == token.AND && fl.isV(a.X) { // &v escapes: no longer tracked
+				bound = false
+			}
+		}
+		return true
+	})
+	return bound
+}
+
+func (fl *c07flow) block(list []ast.Stmt, bound bool) (bool, bool) {
+	for _, s := range list {
+		var term bool
+		bound, term = fl.stmt(s, bound)
+		if term {
+			return bound, true
+		}
+	}
+	return bound, false
+}
+
+func (fl *c07flow) stmt(s ast.Stmt, bound bool) (out bool, terminated bool) {
+	switch x := s.(type) {
+	case nil:
+		return bound, false
+	case *ast.ReturnStmt:
+		for _, r := range x.Results {
+			fl.scanSinks(r, bound)
+		}
+		if fl.sinkCallee == "" {
+			cls := 2
+			if len(x.Results) == 0 {
+				cls = 2
+			} else if id, ok := x.Results[0].(*ast.Ident); ok && id.Name == "nil" {
+				cls = 0
+			} else if fl.isV(x.Results[0]) {
+				cls = 1
+			}
+			fl.sinks = append(fl.sinks, fmt.Sprintf("(%d, %v)", cls, bound))
+			fl.sinkTxt = append(fl.sinkTxt, strings.Join(strings.Fields(printNode(fl.p.fset, x)), " "))
+		}
+		return bound, true
+	case *ast.AssignStmt:
+		for _, r := range x.Rhs {
+			fl.scanSinks(r, bound)
+			bound = fl.anyAssignInFuncLit(r, bound)
+		}
+		return fl.assign(x.Lhs, x.Rhs, bound), false
+	case *ast.DeclStmt:
+		if gd, ok := x.Decl.(*ast.GenDecl); ok && gd.Tok == token.VAR {
+			for _, sp := range gd.Specs {
+				vs := sp.(*ast.ValueSpec)
+				var lhs []ast.Expr
+				for _, n := range vs.Names {
+					lhs = append(lhs, n)
+				}
+				for _, r := range vs.Values {
+					fl.scanSinks(r, bound)
+				}
+				bound = fl.assign(lhs, vs.Values, bound)
+			}
+		}
+		return bound, false
+	case *ast.ExprStmt:
+		fl.scanSinks(x.X, bound)
+		if ce, ok := x.X.(*ast.CallExpr); ok {
+			if fn := printNode(fl.p.fset, ce.Fun); fn == "panic" || fn == "os.Exit" || fn == "log.Fatal" || fn == "log.Fatalf" {
+				return bound, true
+			}
+		}
+		return fl.anyAssignInFuncLit(x.X, bound), false
+	case *ast.BlockStmt:
+		return fl.block(x.List, bound)
+	case *ast.LabeledStmt:
+		return fl.stmt(x.Stmt, bound)
+	case *ast.IfStmt:
+		if x.Init != nil {
+			bound, _ = fl.stmt(x.Init, bound)
+		}
+		fl.scanSinks(x.Cond, bound)
+		tb, tt := fl.block(x.Body.List, bound)
+		eb, et := bound, false
+		if x.Else != nil {
+			eb, et = fl.stmt(x.Else, bound)
+		}
+		switch {
+		case tt && et:
+			return bound, true
+		case tt:
+			return eb, false
+		case et:
+			return tb, false
+		}
+		return tb && eb, false
+	case *ast.ForStmt:
+		if x.Init != nil {
+			bound, _ = fl.stmt(x.Init, bound)
+		}
+		fl.scanSinks(x.Cond, bound)
+		bb, bt := fl.block(x.Body.List, bound)
+		if x.Post != nil {
+			bb, _ = fl.stmt(x.Post, bb)
+		}
+		if bt {
+			return bound, false
+		}
+		return bound && bb, false
+	case *ast.RangeStmt:
+		fl.scanSinks(x.X, bound)
+		if x.Key != nil && fl.isV(x.Key) || x.Value != nil && fl.isV(x.Value) {
+			bound = false
+		}
+		bb, bt := fl.block(x.Body.List, bound)
+		if bt {
+			return bound, false
+		}
+		return bound && bb, false
+	case *ast.SwitchStmt, *ast.TypeSwitchStmt:
+		var body *ast.BlockStmt
+		if sw, ok := x.(*ast.SwitchStmt); ok {
+			if sw.Init != nil {
+				bound, _ = fl.stmt(sw.Init, bound)
+			}
+			fl.scanSinks(sw.Tag, bound)
+			body = sw.Body
+		} else {
+			ts := x.(*ast.TypeSwitchStmt)
+			if ts.Init != nil {
+				bound, _ = fl.stmt(ts.Init, bound)
+			}
+			bound, _ = fl.stmt(ts.Assign, bound)
+			body = ts.Body
+		}
+		res, allTerm, hasDefault := true, true, false
+		for _, c := range body.List {
+			cc := c.(*ast.CaseClause)
+			if cc.List == nil {
+				hasDefault = true
+			}
+			for _, e := range cc.List {
+				fl.scanSinks(e, bound)
+			}
+			cb, ct := fl.block(cc.Body, bound)
+			if !ct {
+				allTerm = false
+				res = res && cb
+			}
+		}
+		if !hasDefault {
+			allTerm = false
+			res = res && bound
+		}
+		if allTerm {
+			return bound, true
+		}
+		return res, false
+	case *ast.BranchStmt:
+		// break / continue / goto: treated as falling out of the enclosing construct with the current state;
+		// the enclosing loop joins with its entry state, which is at least as weak
+		return bound, false
+	default:
+		// go, defer, select, send, inc/dec, empty: no structural tracking
+		fl.scanSinks(s, bound)
+		return fl.anyAssign(s, bound), false
+	}
+}
+
+func (fl *c07flow) anyAssignInFuncLit(e ast.Expr, bound bool) bool {
+	ast.Inspect(e, func(x ast.Node) bool {
+		if f, ok := x.(*ast.FuncLit); ok {
+			bound = fl.anyAssign(f.Body, bound)
+			return false
+		}
+		if u, ok := x.(*ast.UnaryExpr); ok && u.Op == token.AND && fl.isV(u.X) {
+			bound = false
+		}
+		return true
+	})
+	return bound
+}
+
+func c07Flow(o *out, dir, recv, name, v, source, sinkCallee string, sinkArg int, coqName string) {
+	p, fd := findFunc(dir, recv, name)
+	if fd == nil {
+		o.brokenDef(coqName, "function "+dir+":"+recv+"."+name+" not found")
+		return
+	}
+	fl := &c07flow{p: p, v: v, source: source, sinkCallee: sinkCallee, sinkArg: sinkArg}
+	bound := false
+	// a parameter or named result called v starts unbound
+	fl.block(fd.Body.List, bound)
+	what := "returns"
+	if sinkCallee != "" {
+		what = "calls of " + sinkCallee
+	}
+	o.f("Definition %s : list (Z * bool) := [%s].\n(* %s:%s.%s, variable %s bound by %s; %s: %s *)\n", coqName, strings.Join(fl.sinks, "; "), dir, recv, name, v, source, what,
+		strings.ReplaceAll(strings.Join(fl.sinkTxt, " | "), "*)", "* )"))
+	var fs []string
+	for _, f := range fl.fields {
+		fs = append(fs, bytesLit([]byte(f)))
+	}
+	o.f("Definition %s_fields : list bytes := [%s]. (* fields of %s assigned in %s: %s *)\n", coqName, strings.Join(fs, "; "), v, name, strings.Join(fl.fields, ", "))
+}
+
+// c07CertTypes: the CertTypes field of the package-level *signers.Signer literal(s) of a signer package, as a number
+func c07CertTypes(o *out, dir, coqName string) {
+	p := loadPkg(dir)
+	var vals []string
+	var txt []string
+	for _, fn := range sortedFileNames(p) {
+		ast.Inspect(p.files[fn], func(n ast.Node) bool {
+			cl, ok := n.(*ast.CompositeLit)
+			if !ok || printNode(p.fset, cl.Type) != "signers.Signer" {
+				return true
+			}
+			hasSign, ct := false, "0"
+			ctTxt := "(none)"
+			for _, el := range cl.Elts {
+				kv, ok := el.(*ast.KeyValueExpr)
+				if !ok {
+					continue
+				}
+				switch printNode(p.fset, kv.Key) {
+				case "Sign":
+					hasSign = true
+				case "CertTypes":
+					ctTxt = printNode(p.fset, kv.Value)
+					v, err := c07EvalCertTypes(kv.Value)
+					if err != nil {
+						ct = "(-1)"
+					} else {
+						ct = strconv.FormatInt(v, 10)
+					}
+				}
+			}
+			if hasSign {
+				vals = append(vals, ct)
+				txt = append(txt, ctTxt)
+			}
+			return true
+		})
+	}
+	if len(vals) == 0 {
+		o.brokenDef(coqName, "no signers.Signer literal with a Sign function in "+dir)
+		return
+	}
+	o.f("Definition %s : list Z := [%s]. (* %s: CertTypes of the signing modules: %s *)\n", coqName, strings.Join(vals, "; "), dir, strings.Join(txt, ", "))
+}
+
+func c07EvalCertTypes(e ast.Expr) (int64, error) {
+	switch x := e.(type) {
+	case *ast.SelectorExpr:
+		if id, ok := x.X.(*ast.Ident); ok && id.Name == "signers" {
+			ce, _, si, _ := findConstExpr("signers", x.Sel.Name)
+			if ce == nil {
+				return 0, fmt.Errorf("unknown constant signers.%s", x.Sel.Name)
+			}
+			v, err := evalConst("signers", ce, si)
+			return v.i, err
+		}
+	case *ast.BinaryExpr:
+		a, err := c07EvalCertTypes(x.X)
+		if err != nil {
+			return 0, err
+		}
+		b, err := c07EvalCertTypes(x.Y)
+		if err != nil {
+			return 0, err
+		}
+		switch x.Op {
+		case token.OR:
+			return a | b, nil
+		case token.AND:
+			return a & b, nil
+		case token.ADD:
+			return a + b, nil
+		}
+	case *ast.ParenExpr:
+		return c07EvalCertTypes(x.X)
+	}
+	return 0, fmt.Errorf("unsupported CertTypes expression")
+}
+
+var c07StatePkgs = []string{"internal/signinit", "lib/certloader", "signers", "token/tokencache", "token/filetoken",
+	"signers/cosign", "signers/apk", "signers/pgp", "signers/rpm", "signers/deb"}
+
+func c07History(o *out) {
+	o.f("\n(* ---- history inside a long-lived process ---- *)\n")
+	c07PkgState(o, c07StatePkgs, "pkg_state")
+	const tc = "token/tokencache"
+	c07Fields(o, tc, "Cache", "cache_fields")
+	c07Fields(o, tc, "cachedKey", "cached_key_fields")
+	c07Fields(o, "token/filetoken", "fileToken", "filetoken_fields")
+	c07Fields(o, "token/filetoken", "fileKey", "filekey_fields")
+	c07Fields(o, "lib/certloader", "Certificate", "bundle_fields")
+	// tokencache.New: a fresh, empty map per Cache
+	o.hasStmt(tc, "", "New", "return &Cache{ Token: base, keys: make(map[string]cachedKey), expiry: expiry, }", "tc_new_empty")
+	o.hasStmt(tc, "Cache", "GetKey", "c.keys[keyName] = cachedKey{ expires: time.Now().Add(c.expiry), key: key, }", "tc_stores_fetched_key")
+	o.callOrder(tc, "Cache", "GetKey", "tc_call_order", []string{"c.mu.Lock", "c.Token.GetKey"})
+	// file token: what a key object is made of
+	o.hasStmt("token/filetoken", "fileToken", "GetKey", "return &fileKey{ keyConf: keyConf, signer: privateKey.(crypto.Signer), cert: certBlob, }, nil", "filetoken_key_object")
+	o.hasStmt("token/filetoken", "fileKey", "Certificate", "return key.cert", "filekey_cert_is_field")
+	o.hasStmt("token/filetoken", "fileKey", "Config", "return key.keyConf", "filekey_conf_is_field")
+	// data flow
+	const si = "internal/signinit"
+	c07Flow(o, si, "", "InitKey", "cert", "certloader.LoadTokenCertificates", "", 0, "initkey_flow")
+	c07Flow(o, si, "", "InitKey", "key", "tok.GetKey", "certloader.LoadTokenCertificates", 0, "initkey_key_flow")
+	c07Flow(o, si, "", "Init", "cert", "InitKey", "", 0, "init_flow")
+	c07Flow(o, "server", "Server", "serveSign", "cert", "signinit.Init", "mod.Sign", 1, "servesign_flow")
+	c07Flow(o, "cmdline/token", "", "signCmd", "cert", "signinit.Init", "mod.Sign", 1, "signcmd_flow")
+	// Init: certificate-type requirements
+	o.constInt("signers", "CertTypeX509", "cert_type_x509")
+	o.constInt("signers", "CertTypePgp", "cert_type_pgp")
+	il := map[string]string{"cert.Leaf != nil": "has_leaf", "cert.PgpKey != nil": "has_pgp", "mod.CertTypes": "cert_types",
+		"signers.CertTypeX509": "cert_type_x509", "signers.CertTypePgp": "cert_type_pgp"}
+	it := map[string]string{"cert.Leaf != nil": "bool", "cert.PgpKey != nil": "bool"}
+	o.condOf(funcSpec{dir: si, name: "Init", coqName: "init_has_leaf", params: "(has_leaf : bool)", retType: "bool", leaves: il, types: it}, "if:cert.Leaf")
+	o.condOf(funcSpec{dir: si, name: "Init", coqName: "init_needs_x509", params: "(cert_types : Z)", retType: "bool", leaves: il, types: it}, "if:CertTypeX509")
+	o.condOf(funcSpec{dir: si, name: "Init", coqName: "init_has_pgp", params: "(has_pgp : bool)", retType: "bool", leaves: il, types: it}, "if:cert.PgpKey")
+	o.condOf(funcSpec{dir: si, name: "Init", coqName: "init_needs_pgp", params: "(cert_types : Z)", retType: "bool", leaves: il, types: it}, "if:CertTypePgp")
+	for _, sg := range []string{"apk", "appmanifest", "appx", "cab", "cat", "cosign", "deb", "dmg", "jar", "macho", "msi", "pecoff", "pgp", "ps", "rpm", "vsix", "xap", "xar"} {
+		c07CertTypes(o, "signers/"+sg, "certtypes_"+sg)
+	}
 }
